@@ -334,6 +334,11 @@ int reformat_settings_msa(struct msa *msa, int rename, int unalign)
         if(unalign){
                 RUN(dealign_msa(msa));
         }
+        /* kalign_write_msa prints rendered rows (status FINAL): build them
+           from the gap counts that were read with the alignment */
+        if(msa->aligned == ALN_STATUS_ALIGNED){
+                RUN(finalise_alignment(msa));
+        }
         return OK;
 ERROR:
         return FAIL;
